@@ -45,6 +45,136 @@ def I(*a):
     return [Sym("introspect"), *a]
 
 
+def T(*a):
+    return [Sym("toplevel"), *a]
+
+
+# =============================================================== token level (Model/TopLevel.v)
+KW_OF_NODE = {"SchemaDefinitionNode": "schema", "ScalarTypeDefinitionNode": "scalar", "ObjectTypeDefinitionNode": "type",
+              "InterfaceTypeDefinitionNode": "interface", "UnionTypeDefinitionNode": "union", "EnumTypeDefinitionNode": "enum",
+              "InputObjectTypeDefinitionNode": "input", "DirectiveDefinitionNode": "directive",
+              "SchemaExtensionNode": "schema", "ScalarTypeExtensionNode": "scalar", "ObjectTypeExtensionNode": "type",
+              "InterfaceTypeExtensionNode": "interface", "UnionTypeExtensionNode": "union", "EnumTypeExtensionNode": "enum",
+              "InputObjectTypeExtensionNode": "input"}
+
+
+def lex(text):
+    """graphql-core's token stream (comments skipped) in the model's alphabet; None if it does not lex."""
+    from graphql import GraphQLSyntaxError, Lexer, Source, TokenKind
+
+    m = {TokenKind.PAREN_L: "(", TokenKind.BRACE_L: "{", TokenKind.BRACKET_L: "[", TokenKind.PAREN_R: ")",
+         TokenKind.BRACE_R: ")", TokenKind.BRACKET_R: ")", TokenKind.AT: "@", TokenKind.AMP: "&", TokenKind.PIPE: "|",
+         TokenKind.EQUALS: "=", TokenKind.STRING: "s", TokenKind.BLOCK_STRING: "s"}
+    out = []
+    try:
+        lx = Lexer(Source(text))
+        while True:
+            t = lx.advance()
+            if t.kind == TokenKind.EOF:
+                return out
+            out.append([Sym("n"), t.value] if t.kind == TokenKind.NAME else m.get(t.kind, "o"))
+    except GraphQLSyntaxError:
+        return None
+
+
+def parser_split(text):
+    """graphql-core's own split of a type-system document: [(token count, ext, keyword, name)]; None if the text does
+    not parse or holds an executable definition."""
+    from graphql import GraphQLSyntaxError, TokenKind, parse
+
+    try:
+        doc = parse(text)
+    except GraphQLSyntaxError:
+        return None
+    out = []
+    for d in doc.definitions:
+        kind = type(d).__name__
+        if kind not in KW_OF_NODE:
+            return None
+        n, t = 0, d.loc.start_token
+        while True:
+            if t.kind != TokenKind.COMMENT:
+                n += 1
+            if t is d.loc.end_token:
+                break
+            t = t.next
+        kw = KW_OF_NODE[kind]
+        name = "schema" if kw == "schema" else ("@" if kw == "directive" else "") + d.name.value
+        out.append((n, "Extension" in kind, kw, name))
+    return out
+
+
+def tok_key(ts):
+    return [t if isinstance(t, str) else ("n", t[1]) for t in ts]
+
+
+def k2_tokens(run, texts, where):
+    """For the files of one load (in load order): lexing the join = concatenating the token streams, and the automaton
+    of Model/TopLevel.v cuts every document - each file and the join - where graphql-core's parser does."""
+    toks = [lex(t) for t in texts]
+    if any(t is None for t in toks):
+        return
+    joined = "\n".join(texts)
+    jt = lex(joined)
+    run.count()
+    if jt is None or tok_key(jt) != tok_key([x for t in toks for x in t]):
+        run.broken("K2 lex(join) != concat(lex)", json.dumps({"where": where, "texts": texts})[:1500])
+        return
+    docs = list(zip(texts, toks)) + [(joined, jt)]
+    res = model.batch(ENG, [T(Sym("split"), t) for _x, t in docs])
+    per_file = []
+    for (text, _t), r in zip(docs, res):
+        want = parser_split(text)
+        if want is None:
+            per_file.append(None)
+            continue
+        run.dist("toplevel_documents", "type-system document")
+        got = None if r[0] != "ok" else [(int(n), sm[0] == "t", sm[1], sm[2]) if sm != "none" else (int(n),) for n, sm in r[1]]
+        per_file.append(got)
+        if got != want:
+            run.broken("K2 Model/TopLevel.v splits a document differently from graphql-core's parser",
+                       json.dumps({"where": where, "text": text, "parser": want, "model": got})[:1800])
+            return
+    # the theorem's conclusion, observed on the real parser: join = concatenation
+    if all(p is not None for p in per_file[:-1]) and per_file[-1] is not None:
+        if [x for p in per_file[:-1] for x in p] != per_file[-1]:
+            run.broken("parse(join) is not the concatenation although every file is a type-system document",
+                       json.dumps({"where": where, "texts": texts})[:1500])
+        else:
+            run.dist("toplevel_documents", "join == concatenation (files)", len(texts))
+
+
+TRICKY_DOCS = [
+    "type type { input: enum }", "union union = type | input", "enum enum { type schema }", "scalar scalar @specifiedBy(url: \"x\")",
+    "directive @d(a: Int = 1 @x, b: [String!] = [\"type\"]) repeatable on FIELD | OBJECT", "directive @e on | QUERY",
+    "extend schema @a", "extend schema { mutation: M }", "extend union U = | A | B", "interface I implements & J & K { a: Int }",
+    "schema @d(x: {a: 1}) { query: Q }", '\"\"\"block\ndescription\"\"\" type T implements I @a @b(x: 1) { a(x: Int = 1): Int @c }',
+    "extend type T @d", "extend input In { a: Int = 1 }", '"d" directive @on on FIELD', "type implements implements on & repeatable",
+    "union extend = directive", "enum E @a { A @deprecated B }", "input on { on: on = on }", "extend interface I implements J",
+    '"desc" type type implements I & J @d(x: {}) { input: enum } union U = | type | B',
+    "extend schema @a directive @on repeatable on FIELD | OBJECT",      # the documents of Example C19_join_hypotheses_met
+    "type Foo", "type Foo # trailing comment", "scalar S", "union U @a", "enum E", "input I", "interface I",
+]
+
+
+def k2_tricky_docs(ctx):
+    run, rng = ctx.run, ctx.rng
+    for _ in range(400 if ctx.thorough else 80):
+        k2_tokens(run, [rng.choice(TRICKY_DOCS) for _ in range(rng.randint(1, 5))], "tricky")
+    for d in TRICKY_DOCS:
+        k2_tokens(run, [d], "tricky-single")
+    # the hypothesis of the theorem is needed: a second "file" that is an executable document starting with `{`
+    # continues the body-less definition before it (replay of the Example C19_join_needs_documents on the real parser)
+    from graphql import parse
+
+    a, b = "type Foo", "{ a: b }"
+    real = [len(parse(x).definitions) for x in (a, b, a + "\n" + b)]
+    m = model.batch(ENG, [T(Sym("split"), lex(x)) for x in (a, b, a + "\n" + b)])
+    run.count()
+    if real != [1, 1, 1] or m[0][0] != "ok" or m[1][0] != "reject" or m[2][0] != "ok" or len(m[2][1]) != 1:
+        run.broken("hazard example (type Foo + { a: b })", f"parser {real}, model {m}")
+
+
 # =============================================================== encoders
 def enc_type(t):
     from graphql import GraphQLList, GraphQLNonNull
@@ -194,6 +324,112 @@ def model_type_map(res):
                 ms.append(("op", m[1]))
         out[name] = (kind, ms)
     return out
+
+
+# =============================================================== 0. model data vs /repo's source text
+MESSAGE_PREFIXES = {
+    "Invalid remote schema url": "invalid-url", "Failure of remote schema introspection": "status",
+    "Introspection result is not a valid json": "not-json", "Invalid introspection result format": "format",
+    "Introspection errors": "errors", "Invalid data key": "data-key", "Invalid or incomplete introspection result": "build",
+}
+
+
+def k_source_constants(ctx):
+    """Constants the model carries as data are re-derived from the source text of /repo on every run (fail closed when
+    the shape of the code no longer allows the derivation)."""
+    import ast as pyast
+
+    run = ctx.run
+    repo = os.environ.get("VERIF_REPO", "/repo")
+    derived = {}
+
+    def func(tree, name):
+        for n in pyast.walk(tree):
+            if isinstance(n, pyast.FunctionDef) and n.name == name:
+                return n
+        raise LookupError(f"function {name} not found")
+
+    try:
+        schema_src = pyast.parse(open(os.path.join(repo, "ariadne_codegen", "schema.py")).read())
+        settings_src = pyast.parse(open(os.path.join(repo, "ariadne_codegen", "settings.py")).read())
+        # walk_graphql_files: extensions = (...); `.suffix in extensions`
+        w = func(schema_src, "walk_graphql_files")
+        exts = [n for n in pyast.walk(w) if isinstance(n, pyast.Assign) and isinstance(n.targets[0], pyast.Name)
+                and n.targets[0].id == "extensions"]
+        derived["extensions"] = list(pyast.literal_eval(exts[0].value))
+        tests = [pyast.unparse(n) for n in pyast.walk(w) if isinstance(n, pyast.Compare)]
+        if not any(".suffix in extensions" in t for t in tests):
+            raise LookupError(f"walk_graphql_files no longer tests `.suffix in extensions`: {tests}")
+        # load_graphql_files_from_path: "<sep>".join(...), sorted(walk_graphql_files(path))
+        ld = func(schema_src, "load_graphql_files_from_path")
+        joins = [n for n in pyast.walk(ld) if isinstance(n, pyast.Call) and isinstance(n.func, pyast.Attribute)
+                 and n.func.attr == "join" and isinstance(n.func.value, pyast.Constant)]
+        derived["join_sep"] = joins[0].func.value.value
+        if "sorted(walk_graphql_files(path))" not in pyast.unparse(ld):
+            raise LookupError("load_graphql_files_from_path no longer iterates sorted(walk_graphql_files(path))")
+        # introspect_remote_schema: options of get_introspection_query, messages of the raises
+        it = func(schema_src, "introspect_remote_schema")
+        q = [n for n in pyast.walk(it) if isinstance(n, pyast.Call) and getattr(n.func, "id", "") == "get_introspection_query"][0]
+        derived["query_options"] = {k.arg: pyast.literal_eval(k.value) for k in q.keywords}
+        msgs = []
+        for fn in (it, func(schema_src, "get_graphql_schema_from_url")):
+            for n in pyast.walk(fn):
+                if isinstance(n, pyast.Raise) and isinstance(n.exc, pyast.Call) and getattr(n.exc.func, "id", "") == "IntrospectionError":
+                    a = n.exc.args[0]
+                    if isinstance(a, pyast.JoinedStr):
+                        a = a.values[0]
+                    elif isinstance(a, pyast.BinOp):
+                        a = a.left
+                    msgs.append(a.value if isinstance(a, pyast.Constant) else pyast.unparse(a))
+        derived["messages"] = msgs
+        handlers = [pyast.unparse(h.type) for n in pyast.walk(func(schema_src, "get_graphql_schema_from_url"))
+                    if isinstance(n, pyast.Try) for h in n.handlers]
+        derived["translated_exceptions"] = handlers
+        # get_header_value: env_var_prefix
+        hv = func(settings_src, "get_header_value")
+        pref = [n for n in pyast.walk(hv) if isinstance(n, pyast.Assign) and getattr(n.targets[0], "id", "") == "env_var_prefix"]
+        derived["env_var_prefix"] = pyast.literal_eval(pref[0].value)
+        body = pyast.unparse(hv)
+        for needle in ("value.startswith(env_var_prefix)", "value.lstrip(env_var_prefix)", "if not var_value"):
+            if needle not in body:
+                raise LookupError(f"get_header_value no longer contains `{needle}`")
+    except Exception as e:  # noqa
+        run.broken("source-derived constants", f"cannot derive the model's data from the source any more: {type(e).__name__}: {e}")
+        return
+    m_exts, m_sep = model.call(ENG, L(Sym("constants")))
+    m_prefix, m_flags = model.call(ENG, I(Sym("constants")))
+    names = ["descriptions", "specified_by_url", "directive_is_repeatable", "schema_description", "input_value_deprecation"]
+    m_opts = {n: v == "t" for n, v in zip(names, m_flags)}
+    run.count(5)
+    if derived["extensions"] != m_exts:
+        run.violation(f"source: extensions {derived['extensions']} vs model {m_exts}", {"derived": derived}, found_input=False)
+    if derived["join_sep"] != m_sep:
+        run.violation(f"source: join separator {derived['join_sep']!r} vs model {m_sep!r}", {"derived": derived}, found_input=False)
+    from graphql import get_introspection_query
+    import inspect
+
+    defaults = {k: p.default for k, p in inspect.signature(get_introspection_query).parameters.items()}
+    if {**defaults, **derived["query_options"]} != {**defaults, **m_opts}:
+        run.violation(f"source: introspection query options {derived['query_options']} vs model {m_opts}", {"derived": derived},
+                      found_input=False)
+    if derived["env_var_prefix"] != m_prefix:
+        run.violation(f"source: env_var_prefix {derived['env_var_prefix']!r} vs model {m_prefix!r}", {"derived": derived}, found_input=False)
+    unknown = [m for m in derived["messages"] if not any(m.startswith(p) for p in MESSAGE_PREFIXES)]
+    unused = [p for p in MESSAGE_PREFIXES if not any(m.startswith(p) for m in derived["messages"])]
+    if unknown or unused or len(derived["messages"]) != len(MESSAGE_PREFIXES):
+        run.broken("source-derived constants", f"IntrospectionError messages in the source {derived['messages']} no longer match the "
+                                               f"outcome table of the tie (unknown {unknown}, unused {unused})")
+    # library side: the keywords that begin a type-system definition (Model/TopLevel.v def_keywords)
+    try:
+        from graphql.language.parser import Parser
+
+        lib = set(Parser._parse_type_system_definition_method_names) | {"extend"}
+        if set(model.call(ENG, T(Sym("keywords")))) != lib:
+            run.broken("K2 definition keywords", f"graphql-core {sorted(lib)} vs model")
+        derived["definition_keywords"] = sorted(lib)
+    except AttributeError:
+        derived["definition_keywords"] = "graphql-core internals not available (checked by the token K2 only)"
+    run.extra["derived_from_source"] = derived
 
 
 # =============================================================== 1. suffix, path order
@@ -368,6 +604,7 @@ def k_loader(ctx, tmp):
                 run.broken("K2 parse(join) != concat of per-file definitions", json.dumps({**replay, "model": names_model, "real": names_real})[:1500])
             if nsel >= 2:
                 run.nontrivial_case(("tree", ci))
+            k2_tokens(run, [files[tuple(p)] for p in r_walk], "loader tree")
         shutil.rmtree(root, ignore_errors=True)
     # single file: no extension filter
     single = [("schema.txt", "type Q { a: Int }"), ("noext", "type Q { a: Int }"), ("bad.graphql", "type {"), ("e.gql", "")]
@@ -428,7 +665,89 @@ def k_headers(ctx):
     finally:
         os.environ.clear()
         os.environ.update(old)
+    # replay of the witness of C19_resolve_not_idempotent on the real function
+    os.environ.update({"C19_A": "$C19_B", "C19_B": "b"})
+    try:
+        once = resolve_headers({"H": "$C19_A"})
+        twice = resolve_headers(once)
+        run.count()
+        if once != {"H": "$C19_B"} or twice != {"H": "b"}:
+            run.violation(f"witness of C19_resolve_not_idempotent: resolve once {once}, twice {twice}", {"once": once, "twice": twice},
+                          found_input=False)
+    finally:
+        os.environ.pop("C19_A", None)
+        os.environ.pop("C19_B", None)
     run.extra["header_cases"] = len(cases)
+
+
+# =============================================================== 3b. histories over one configuration object
+H_VALUES = ["plain", "$C19_H1", "$C19_H2", "$$C19_H1", "Bearer $C19_H1", "$C19_CHAIN"]
+H_ENVVALS = ["tok-1", "tok-2", "tok-3", "", None, "$C19_H1", "$literal"]
+
+
+def gen_history(rng):
+    keys = rng.sample(["Authorization", "X-Api-Key", "x-a", "Cookie"], rng.randint(1, 3))
+    headers = {k: rng.choice(H_VALUES) for k in keys}
+    envs = []
+    for _ in range(rng.randint(2, 5)):
+        env = {}
+        for name in ("C19_H1", "C19_H2", "C19_CHAIN"):
+            v = rng.choice(H_ENVVALS[:3] + H_ENVVALS)
+            if v is not None:
+                env[name] = v
+        envs.append(env)
+    return headers, envs
+
+
+def k_histories(ctx, tmp):
+    """Several settings constructions in one process over the SAME config dict object while the environment rotates:
+    each must resolve against the configuration as written (Model: run_history), and leave it untouched."""
+    import copy
+
+    from ariadne_codegen.config import get_client_settings, get_graphql_schema_settings
+    from ariadne_codegen.exceptions import InvalidConfiguration
+
+    run, rng = ctx.run, ctx.rng
+    n = 1200 if ctx.thorough else 250
+    cases = [gen_history(rng) for _ in range(n)]
+    res = model.batch(ENG, [I(Sym("history"), "http://127.0.0.1:1/graphql", [[k, v] for k, v in h.items()], True,
+                              [[[k, v] for k, v in e.items()] for e in envs]) for h, envs in cases])
+    old = dict(os.environ)
+    try:
+        for ci, ((headers, envs), (m_steps, m_cfg)) in enumerate(zip(cases, res)):
+            inner = dict(headers)
+            cfg = {"tool": {"ariadne-codegen": {"remote_schema_url": "http://127.0.0.1:1/graphql", "remote_schema_headers": inner,
+                                                 "queries_path": tmp, "remote_schema_verify_ssl": True}}}
+            orig = copy.deepcopy(cfg)
+            real = []
+            for si, env in enumerate(envs):
+                for k in [k for k in os.environ if k.startswith("C19_")]:
+                    del os.environ[k]
+                os.environ.update(env)
+                fn = get_client_settings if (ci + si) % 2 == 0 else get_graphql_schema_settings
+                try:
+                    st = fn(cfg)
+                    real.append(["ok", [[k, v] for k, v in st.remote_schema_headers.items()]])
+                except InvalidConfiguration as e:
+                    msg = str(e)
+                    real.append(["err", msg[len("Environment variable "):-len(" not found.")]])
+            run.count()
+            run.dist("history_length", str(len(envs)))
+            if any(v.startswith("$") for v in headers.values()):
+                run.nontrivial_case(("history", ci))
+            unchanged = cfg == orig and cfg["tool"]["ariadne-codegen"]["remote_schema_headers"] is inner
+            replay = {"headers": headers, "envs": envs, "impl": real, "model": m_steps, "config_after": cfg}
+            if not unchanged or [[k, v] for k, v in inner.items()] != m_cfg:
+                run.violation(f"history: the configuration object was modified by a run: {inner} (written: {headers})", replay)
+            if real != m_steps:
+                # the property's oracle: what step i resolves must be what a fresh process would resolve for env i
+                first = next(i for i, (a, b) in enumerate(zip(real, m_steps)) if a != b)
+                run.violation(f"history: step {first} resolved {real[first]} but the configuration {headers} under "
+                              f"{envs[first]} resolves to {m_steps[first]} (earlier steps: {envs[:first]})", replay)
+    finally:
+        os.environ.clear()
+        os.environ.update(old)
+    run.extra["history_cases"] = n
 
 
 # =============================================================== 4. decision chain over loopback HTTP
@@ -488,20 +807,8 @@ def classify_real(fn):
         return ["schema"], None
     except IntrospectionError as e:
         m = str(e)
-        if m.startswith("Invalid remote schema url"):
-            sub = ["invalid-url"]
-        elif m.startswith("Failure of remote schema introspection"):
-            sub = ["status", m.rsplit(" ", 1)[-1]]
-        elif m.startswith("Introspection result is not a valid json"):
-            sub = ["not-json"]
-        elif m.startswith("Invalid introspection result format"):
-            sub = ["format"]
-        elif m.startswith("Introspection errors"):
-            sub = ["errors"]
-        elif m.startswith("Invalid data key"):
-            sub = ["data-key"]
-        else:
-            sub = ["build"]
+        cls = next((c for p, c in MESSAGE_PREFIXES.items() if m.startswith(p)), "unknown")
+        sub = ["status", m.rsplit(" ", 1)[-1]] if cls == "status" else [cls]
         return ["introspection-error", sub], m
     except Exception as e:  # noqa
         return ["crash", type(e).__name__], f"{type(e).__module__}.{type(e).__name__}: {e}"
@@ -808,6 +1115,9 @@ def corpus_scenarios():
                          [("a.gql", [1]), ("old.graphqls/b.graphql", rest + [0])]]
         sc["noise"] = ["README.md"]
         sc["introspection"] = [{"headers": {"Authorization": "$C19_TOKEN"}, "env": {"C19_TOKEN": "tok"}}]
+        sc["history"] = {"headers": {"Authorization": "$C19_TOKEN", "X-Chain": "$C19_CHAIN", "X-Plain": "p"},
+                         "envs": [{"C19_TOKEN": "tok-1", "C19_CHAIN": "$C19_TOKEN"}, {"C19_TOKEN": "tok-2", "C19_CHAIN": "c2"},
+                                  {"C19_CHAIN": "c3"}, {"C19_TOKEN": "tok-4", "C19_CHAIN": "c4"}]}
     return out
 
 
@@ -984,6 +1294,33 @@ def k_scenarios(ctx, tmp):
                 if d:
                     run.violation(f"{key}: {f} differs between SDL and introspection: {d}", {**replay, "file": f, "diff": d})
             compare_inputs(run, sp["input_types.py"], ip["input_types.py"], minfo, dec, replay, key)
+        # ---------------- history in one process over one configuration dict
+        if sc.get("history") and "history" in res:
+            h = sc["history"]
+            m_steps, _m_cfg = model.call(ENG, I(Sym("history"), res["history"]["url"], [[k, v] for k, v in h["headers"].items()], True,
+                                                 [[[k, v] for k, v in e.items()] for e in h["envs"]]))
+            for i, (stp, ms, env) in enumerate(zip(res["history"]["steps"], m_steps, h["envs"])):
+                run.count()
+                run.dist("introspection_kind", "history step (same config object)")
+                replay = {**base_replay, "history": h, "step": i, "impl": {k: v for k, v in stp.items() if k != "package"}, "model": ms}
+                if not stp["config_unchanged"]:
+                    run.violation(f"history step {i}: main.client modified the configuration dict it was given", replay)
+                if ms[0] == "err":
+                    if not stp["error"] or "InvalidConfiguration" not in stp["error"]["type"] or stp["requests"]:
+                        run.violation(f"history step {i}: ${ms[1]} is unset, expected InvalidConfiguration and no request; got "
+                                      f"{stp['error']} / {len(stp['requests'])} request(s)", replay)
+                    continue
+                if stp["error"] or len(stp["requests"]) != 1:
+                    run.violation(f"history step {i}: generation failed or wrong number of requests: {stp['error']}", replay)
+                    continue
+                got = {k.lower(): v for k, v in stp["requests"][0]["headers"]}
+                for k, v in ms[1]:
+                    if got.get(k.lower()) != v:
+                        run.violation(f"history step {i}: header {k} sent as {got.get(k.lower())!r}; the configuration "
+                                      f"{h['headers'][k]!r} under {env} resolves to {v!r}", replay)
+                for f in sp:
+                    if f != "input_types.py" and module_equal_modulo_order(sp[f], stp["package"].get(f)):
+                        run.violation(f"history step {i}: {f} differs from the single-file package", {**replay, "file": f})
     run.extra["scenarios"] = n
 
 
@@ -1018,6 +1355,8 @@ def inprocess_scenario(ctx, sc, tmp, si):
             entries.append(enc_entry(comps, False, text))
         entries += [enc_entry(d, True, "") for d in sorted(dirs)]
         run.count()
+        order = sorted(layout, key=lambda pl: pl[0].split("/"))
+        k2_tokens(run, ["\n".join(sc["defs"][j] for j in idxs) for _rel, idxs in order], "scenario layout")
         try:
             real = real_type_map(get_graphql_schema_from_path(root))
         except Exception as e:  # noqa
@@ -1124,9 +1463,12 @@ def run(ctx):
     ]
     tmp = tempfile.mkdtemp(prefix="c19-", dir="/var/tmp")
     try:
+        k_source_constants(ctx)
         k_suffix_and_order(ctx)
+        k2_tricky_docs(ctx)
         k_loader(ctx, tmp)
         k_headers(ctx)
+        k_histories(ctx, tmp)
         k_outcomes(ctx)
         k_scenarios(ctx, tmp)
     finally:
